@@ -168,6 +168,32 @@ def check_validation(report):
             "templates must read method settings through the validated api.all_method_settings")
 
 
+def request_writers(sk, fn):
+    """statements of the client method that (re)bind `request` or write one of its fields"""
+    out = []
+    for n in own_body_walk(fn):
+        if isinstance(n, (ast.Assign, ast.AugAssign, ast.AnnAssign)):
+            tgts = n.targets if isinstance(n, ast.Assign) else [n.target]
+            for t in tgts:
+                base = t
+                while isinstance(base, (ast.Attribute, ast.Subscript)):
+                    base = base.value
+                if isinstance(base, ast.Name) and base.id == "request":
+                    out.append(n)
+                    break
+        elif isinstance(n, ast.Expr) and isinstance(n.value, ast.Call) and isinstance(n.value.func, ast.Attribute) \
+                and n.value.func.attr in ("extend", "update", "append", "CopyFrom", "MergeFrom", "add", "insert"):
+            base = n.value.func.value
+            while isinstance(base, (ast.Attribute, ast.Subscript)):
+                base = base.value
+            if isinstance(base, ast.Name) and base.id == "request":
+                out.append(n)
+        elif isinstance(n, ast.Expr) and isinstance(n.value, ast.Call) and isinstance(n.value.func, ast.Name) and n.value.func.id == "setattr" \
+                and n.value.args and isinstance(n.value.args[0], ast.Name) and n.value.args[0].id == "request":
+            out.append(n)
+    return out
+
+
 def check_population(report, lib: Lib):
     r2 = report.rule("C18.2", "population block: presence-aware test, `request.<f> = str(uuid.uuid4())`, same field, no other writer", floor=6)
     r3 = report.rule("C18.3", "the population block dominates the rpc call (sync and asyncio clients)", floor=6)
@@ -199,6 +225,15 @@ def check_population(report, lib: Lib):
                         r3.instance()
                         r3.check(cm.cfg.dominates(g[0], cm.stmt_of(rc[0])), *cm.where(g[0]), "population vs rpc call",
                                  "the request id must be populated before the request is sent")
+                    # ... and after everything else that writes the request: a flattened keyword argument (`request.<f> = <f>`, even
+                    # an empty string, which `is not None`) or a coercion applied after the block would overwrite / discard the fresh id
+                    for w in request_writers(sk, cm.fn):
+                        if w is s or cm.stmt_of(w) is g[0]:
+                            continue
+                        r3.instance()
+                        r3.check(not cm.cfg.reachable(g[0], cm.stmt_of(w)), *cm.where(w), f"`{D(sk, w)[:70]}` after the population block",
+                                 "the request is (re)written after the id was populated: the generated UUID can be overwritten by a flattened "
+                                 "argument (e.g. request_id='') or lost with the rebuilt request; populate after the last write to `request`")
     r2.need(n_blocks >= 4, "population blocks in forced variants (sync/async x presence)")
     # without settings nothing is populated
     for is_async in (False, True):
